@@ -230,10 +230,15 @@ class NewPin(Contract):
                      or (n == len(fp) + 1 and g.log == old.g.log + pin_apdus(fp, len(fp)) + [apdu_of(CMD_CHANGE_PIN, b"")])))
     def true_means_acknowledged(result, pin, g, old):
         fp = bytes([len(pin)]) + pin
-        return implies(result, ok(g) and g.log == old.g.log + pin_apdus(fp, len(fp)) + [apdu_of(CMD_CHANGE_PIN, b"")])
+        return implies(result, ok(g) and g.last_cmd == CMD_CHANGE_PIN
+                       and sel(g.cnt, CMD_CHANGE_PIN) == sel(old.g.cnt, CMD_CHANGE_PIN) + 1
+                       and g.log == old.g.log + pin_apdus(fp, len(fp)) + [apdu_of(CMD_CHANGE_PIN, b"")])
+    def change_pin_at_most_once(g, old):
+        return (sel(g.cnt, CMD_CHANGE_PIN) >= sel(old.g.cnt, CMD_CHANGE_PIN)
+                and sel(g.cnt, CMD_CHANGE_PIN) <= sel(old.g.cnt, CMD_CHANGE_PIN) + 1)
     def false_means_invalid_pin(result, g): return implies(not result, classify(g) == K_ERR and g.last_sw == 0x69A0)
-    ensures = [sequence, true_means_acknowledged, false_means_invalid_pin]
+    ensures = [sequence, true_means_acknowledged, false_means_invalid_pin, change_pin_at_most_once]
 
     def x_err_not_invalid_pin(exc, g): return g.last_sw != 0x69A0
-    raises = PROPAGATE(sequence)
-    raises[ERR_RESULT] = Exc(args=[INT_], post=[x_err, sequence, x_err_not_invalid_pin])
+    raises = PROPAGATE(sequence, change_pin_at_most_once)
+    raises[ERR_RESULT] = Exc(args=[INT_], post=[x_err, sequence, x_err_not_invalid_pin, change_pin_at_most_once])
